@@ -89,3 +89,11 @@ META["C04"] = dict(
     note="Trusts the recording validator/transport/network/datastore doubles. The graphsync arrival path is emulated by calling the registered EventsHandler as the real transport does.",
     technique="runtime monitoring: join of recorded call logs (validator, datastore writes, transport, network) against the validator's decisions",
 )
+
+META["C05"] = dict(
+    text=("Held on K generated channel populations and message storms: a message changes at most the one channel its authenticated sender and kind entitle it to; restart and "
+          "restart-existing requests are honoured only when genuine; wrong-role local calls fail without effect. Senders, kinds and ids are sampled from a product space."),
+    design_ref="DESIGN.md §2 C05",
+    note="Trusts datastore/transport/network doubles; 'authenticated sender' is the peer argument the network layer passes (C15 checks that it is the connection's remote peer).",
+    technique="runtime monitoring: per-message differential oracle on stored records, event streams and transport calls of all pre-existing channels",
+)
